@@ -277,6 +277,59 @@ theorem v1_ok [BEq O] [LawfulBEq O] (cap : Nat) (ops : List (Op1 M O)) :
     exact this
   · left; simpa using hc
 
+/-! ## eventually complete (no further publications) -/
+
+/-- (v2: eventually complete) After ANY history, if nothing more is enqueued, finitely many
+steps of the port task bring it to its parking point with an empty channel, and then every
+registered subscription has received the image of ALL publications after its subscription
+point. No step of this waits for anything a subscriber does. -/
+theorem v2_eventually_complete (ad : Bool) (ops : List (Op2 M O)) :
+    ∃ n, let st := (V2.init M O ad).run (ops ++ List.replicate n .task)
+      st.idle = true ∧ ∀ s ∈ st.live, s.got = (st.after s).filterMap s.conv := by
+  obtain ⟨n, hn⟩ := V2.reaches_idle ((V2.init M O ad).run ops)
+  refine ⟨n, ?_⟩
+  have he : (V2.init M O ad).run (ops ++ List.replicate n .task) =
+      V2.tasks n ((V2.init M O ad).run ops) := by
+    rw [V2.tasks_eq_run]; simp [V2.run, List.foldl_append]
+  simp only [he]
+  refine ⟨hn, ?_⟩
+  have hinv : Inv (V2.tasks n ((V2.init M O ad).run ops)) := by
+    rw [← he]; exact inv_run _ (inv_init ad)
+  exact hinv.exact hn
+
+/-- (v1: eventually caught up) After any history, without further publications, finitely many
+iterations of forwarding task `i` make it return or catch up with the ring; a task that caught
+up has the images of the last `cap` publications at the end of its sequence. -/
+theorem v1_eventually_caught_up (cap : Nat) (ops : List (Op1 M O)) (i : Nat) :
+    ∃ n, let st := (V1.init M O cap).run (ops ++ List.replicate n (.task i))
+      ∀ f, st.fwds[i]? = some f → f.ended = true ∨
+        (f.cursor = st.log.length ∧
+          ((st.after f).drop ((st.after f).length - cap)).filterMap f.conv <:+ f.got) := by
+  obtain ⟨n, hn⟩ := V1.reaches_settled ((V1.init M O cap).run ops) (inv1_run ops (inv1_init cap)) i
+  refine ⟨n, ?_⟩
+  have he : (V1.init M O cap).run (ops ++ List.replicate n (.task i)) =
+      V1.tasks n ((V1.init M O cap).run ops) i := by
+    rw [V1.tasks_eq_run]; simp [V1.run, List.foldl_append]
+  intro st f hf
+  have hst : st = V1.tasks n ((V1.init M O cap).run ops) i := he
+  have hinv : Inv1 st := inv1_run _ (inv1_init cap)
+  have hcap : st.cap = cap := run1_cap _ _
+  rw [← hst] at hn
+  simp only [V1.settled, hf, Bool.or_eq_true, decide_eq_true_eq] at hn
+  cases hend : f.ended with
+  | true => left; rfl
+  | false =>
+    right
+    have hok := hinv f (List.mem_of_getElem? hf)
+    have hcur : f.cursor = st.log.length := by
+      rcases hn with h | h
+      · rw [hend] at h; cases h
+      · have := hok.hCur; omega
+    refine ⟨hcur, ?_⟩
+    have := hok.recent hend hcur
+    rw [hcap] at this
+    exact this
+
 /-! ## dropping the port (`V2c` / `V1c`: the handle — the last sender — is dropped while the
 port task / the forwarding tasks still have queued publications) -/
 
@@ -482,6 +535,8 @@ example : demo1c.base.fwds.map (fun f => (f.got, f.ended)) = [([2, 3, 4, 5], fal
 #print axioms C16.v1_publish_nonblocking
 #print axioms C16.v1_ok
 #print axioms C16.v2_stopped_dropped
+#print axioms C16.v2_eventually_complete
+#print axioms C16.v1_eventually_caught_up
 #print axioms C16.v1_stopped_dropped
 #print axioms C16.v2_drop_simulation
 #print axioms C16.v2_drop_prefix
